@@ -26,9 +26,13 @@ LEVEL_TEXT = ('Unbounded Lean theorems: (a) ALL SIZES of the hand-modelled class
               'clause for every size: z_generators_independent_partial, 2 LxLyLz - 3 independent cell generators with a peeling '
               'order, evaluated on the implementation matrix each run; X-type half and full rank by instances), '
               'HollowRhombicCode Lx,Ly>=2, Lz>=3 (wf, commutation incl. the key-count selection rule of the triangle loop, '
-              'pairing; rank by instances, and the NEGATIVE theorems thin_hole_family_x/_y/_z: for EVERY size with a hole one '
-              'layer thin (Lx=3, Ly,Lz>=6; Ly=4, Lx>=5, Lz>=6; Lz=4, Lx>=5, Ly>=6) an undeclared second logical pair exists, '
-              'rank <= n-2, not a valid [[n,1]] code - the known finding): the assembled matrices '
+              'pairing for every size; rank clause: EXACT CHARACTERISATION valid_iff_not_deficient - a size of the family is a '
+              'valid [[n,1]] code (rank n-1) iff it is not Deficient, the decidable predicate "hole one layer thin in one '
+              'direction and >= 2 cells wide in the two others": Lx=3, Ly,Lz>=6; Ly=4, Lx>=5, Lz>=6; Lz=4, Lx>=5, Ly>=6; '
+              'negative side deficient_not_valid for EVERY deficient size: an undeclared second logical pair, rank <= n-2, '
+              'not a valid code - the known finding; positive side valid_code for EVERY other size: the explicit family '
+              'rankFamily is independent for every size (triangular operator probes) and has n-1 members on every '
+              'non-deficient size (partition into boxes, checkerboard counts)): the assembled matrices '
               'exist and satisfy ValidCodeL n k (commutation, logical commutation, pairing table, GF(2) rank n-k) for every '
               'lattice size, with closed forms for n, k, stabilizers and get_deformation; (b) the executable validity checker '
               'is sound for every code; commutation+pairing force rank <= n-k for every code; every per-qubit permutation of '
@@ -158,6 +162,12 @@ def cases_for(ctx, deep):
             cases.append({'class': cls, 'size': list(s), 'deform': [None, {}], 'nonsquare': True})
     # inside the supported family, beyond the table bound: a known rank deficiency
     cases.append({'class': 'HollowRhombicCode', 'size': [3, 6, 6], 'deform': [None, {}], 'large_hollow': True})
+    if deep:   # one member of each of the other two deficient families (predicate Deficient)
+        cases.append({'class': 'HollowRhombicCode', 'size': [5, 4, 6], 'deform': [None, {}], 'large_hollow': True})
+        cases.append({'class': 'HollowRhombicCode', 'size': [5, 6, 4], 'deform': [None, {}], 'large_hollow': True})
+    # non-deficient sizes with a hole beyond the table bound (thin, thick, slab): valid codes (theorem valid_code)
+    for s in ((3, 5, 5), (4, 5, 5), (4, 5, 4)) + (((3, 5, 7), (4, 4, 7), (5, 5, 4), (4, 6, 5)) if deep else ()):
+        cases.append({'class': 'HollowRhombicCode', 'size': list(s), 'deform': [None, {}]})
     return cases
 
 
